@@ -314,6 +314,7 @@ type Unit struct {
 	specOrder     []string
 	entry         *State
 	typedArrs     map[int]bool
+	frameSpec     *frameSpec
 	assumed       map[int]bool
 	assumeTags    []string
 	curTag        string   // tag given to assumptions being added (loop invariant labels)
@@ -389,6 +390,26 @@ func (u *Unit) run() (err error) {
 	// postconditions
 	ens := u.con.get("ensures")
 	post := func(rst *State, vals []Val, suffix string) {
+		// `at return assert` stepping stones (locals visible, results named)
+		var rets []*Clause
+		for _, cl := range u.con.clauses {
+			if cl.kind == "at" && cl.at == "return" {
+				rets = append(rets, cl)
+			}
+		}
+		for _, cl := range rets {
+			fenv := u.frameEnv(fr, rst, nil)
+			for i, r := range u.ci.results {
+				fenv.vars[r] = vals[i]
+			}
+			if len(vals) == 1 {
+				fenv.vars["result"] = vals[0]
+			}
+			g := u.evalIn(fenv, cl)
+			u.curWithout = cl.without
+			u.oblige("assert", "return-"+labelOr(cl, rets)+suffix, rst, g, token.NoPos, cl.text)
+			u.curWithout = nil
+		}
 		env := u.paramEnv(rst, u.entry)
 		for i, r := range u.ci.results {
 			env.vars[r] = vals[i]
@@ -431,19 +452,29 @@ func (u *Unit) paramEnv(st *State, old *State) *Env {
 	return env
 }
 
-// frameObligations: heap locations not named by `modifies` are unchanged.
-func (u *Unit) frameObligations(st *State) {
-	// Only checked when the contract has an explicit modifies clause or declares itself pure.
+// Frame conditions: heap locations not named by `modifies` are unchanged.
+// The same condition is checked at the end of the function and kept as an
+// engine-generated invariant at every loop whose body writes the heap.
+type frameSpec struct {
+	allowed      map[string][]*Term // field heap key -> object refs whose entry may change
+	elemsAllowed map[string][]*Term // element heap key -> slices whose elements may change
+	everything   bool
+	active       bool
+}
+
+func (u *Unit) frame() *frameSpec {
+	if u.frameSpec != nil {
+		return u.frameSpec
+	}
+	fs := &frameSpec{allowed: map[string][]*Term{}, elemsAllowed: map[string][]*Term{}}
+	u.frameSpec = fs
 	mods := u.con.get("modifies")
 	if len(mods) == 0 && !u.con.hasFrame() {
-		return
+		return fs
 	}
-	tb := u.m.tb
+	fs.active = true
 	env := u.paramEnv(u.entry, nil)
 	env.info = u.ci.info
-	allowed := map[string][]*Term{} // heap key -> refs whose entry may change
-	elemsAllowed := map[string][]*Term{}
-	everything := false
 	var addStruct func(ref *Term, t types.Type)
 	addStruct = func(ref *Term, t types.Type) {
 		dt := u.m.structInfo(t)
@@ -451,7 +482,7 @@ func (u *Unit) frameObligations(st *State) {
 			if isStructType(f.typ) {
 				addStruct(u.subRef(dt, i, ref), f.typ)
 			} else {
-				allowed[dt.heapKey(i)] = append(allowed[dt.heapKey(i)], ref)
+				fs.allowed[dt.heapKey(i)] = append(fs.allowed[dt.heapKey(i)], ref)
 			}
 		}
 	}
@@ -459,7 +490,7 @@ func (u *Unit) frameObligations(st *State) {
 		for _, e := range u.ci.modifies[cl] {
 			e = ast.Unparen(e)
 			if id, ok := e.(*ast.Ident); ok && id.Name == "everything" {
-				everything = true
+				fs.everything = true
 				continue
 			}
 			switch x := e.(type) {
@@ -481,18 +512,61 @@ func (u *Unit) frameObligations(st *State) {
 					if isStructType(dt.fields[fi].typ) {
 						addStruct(u.subRef(dt, fi, ref), dt.fields[fi].typ)
 					} else {
-						allowed[dt.heapKey(fi)] = append(allowed[dt.heapKey(fi)], ref)
+						fs.allowed[dt.heapKey(fi)] = append(fs.allowed[dt.heapKey(fi)], ref)
 					}
 				}
 			case *ast.SliceExpr:
 				s := env.eval(x.X).(*Term)
 				et := env.typeOf(x.X).Underlying().(*types.Slice).Elem()
 				k, _ := u.elemsKey(et)
-				elemsAllowed[k] = append(elemsAllowed[k], s)
+				fs.elemsAllowed[k] = append(fs.elemsAllowed[k], s)
 			}
 		}
 	}
-	if everything {
+	return fs
+}
+
+// frameGoal: the frame condition of heap key k between function entry and st
+// (nil when nothing was written or the key is exempt).
+func (u *Unit) frameGoal(st *State, k string) *Term {
+	fs := u.frame()
+	if !fs.active || fs.everything || k == allocHeapKey {
+		return nil
+	}
+	tb := u.m.tb
+	srt, ok := u.heapSorts[k]
+	if !ok {
+		return nil
+	}
+	final := u.heapGet(st, k, srt)
+	entry := u.heapGet(u.entry, k, srt)
+	if final == entry {
+		return nil
+	}
+	// objects allocated by this function (outside the entry allocation set) are not
+	// caller-visible; listed locations may change; every other entry object is unchanged
+	exp := entry
+	var extra []*Term
+	if strings.HasPrefix(k, "E_") {
+		for _, s := range fs.elemsAllowed[k] {
+			ref := u.m.SliceRef(s)
+			exp = tb.Store(exp, ref, tb.Select(final, ref))
+			j := tb.BoundVar("j", u.m.ixSort())
+			in := tb.And(u.m.IxLe(u.m.SliceOff(s), j), u.m.IxLt(j, u.m.IxAdd(u.m.SliceOff(s), u.m.SliceCap(s))))
+			extra = append(extra, tb.Forall([]*Term{j}, tb.Implies(tb.Not(in), tb.Eq(tb.Select(tb.Select(final, ref), j), tb.Select(tb.Select(entry, ref), j)))))
+		}
+	} else {
+		for _, ref := range fs.allowed[k] {
+			exp = tb.Store(exp, ref, tb.Select(final, ref))
+		}
+	}
+	r := tb.BoundVar("r", SInt)
+	main := tb.Forall([]*Term{r}, tb.Implies(u.isAlloc0(r), tb.Eq(tb.Select(final, r), tb.Select(exp, r))))
+	return tb.And(append([]*Term{main}, extra...)...)
+}
+
+func (u *Unit) frameObligations(st *State) {
+	if !u.frame().active || u.frame().everything {
 		return
 	}
 	var keys []string
@@ -501,36 +575,11 @@ func (u *Unit) frameObligations(st *State) {
 	}
 	sort.Strings(keys)
 	for _, k := range keys {
-		srt := u.heapSorts[k]
-		final := u.heapGet(st, k, srt)
-		entry := u.heapGet(u.entry, k, srt)
-		if final == entry {
-			continue
+		if g := u.frameGoal(st, k); g != nil {
+			u.curWithout = u.con.frameWithout
+			u.oblige("frame", k, st, g, token.NoPos, "locations outside `modifies` are unchanged ("+k+")")
+			u.curWithout = nil
 		}
-		// objects allocated by this function (outside Alloc0) are not caller-visible;
-		// listed locations may change; every other entry object must be unchanged
-		exp := entry
-		var extra []*Term
-		if strings.HasPrefix(k, "E_") {
-			for _, s := range elemsAllowed[k] {
-				ref := u.m.SliceRef(s)
-				exp = tb.Store(exp, ref, tb.Select(final, ref))
-				j := tb.BoundVar("j", u.m.ixSort())
-				in := tb.And(u.m.IxLe(u.m.SliceOff(s), j), u.m.IxLt(j, u.m.IxAdd(u.m.SliceOff(s), u.m.SliceCap(s))))
-				extra = append(extra, tb.Forall([]*Term{j}, tb.Implies(tb.Not(in), tb.Eq(tb.Select(tb.Select(final, ref), j), tb.Select(tb.Select(entry, ref), j)))))
-			}
-		} else {
-			for _, ref := range allowed[k] {
-				exp = tb.Store(exp, ref, tb.Select(final, ref))
-			}
-		}
-		if k == allocHeapKey {
-			continue
-		}
-		r := tb.BoundVar("r", SInt)
-		main := tb.Forall([]*Term{r}, tb.Implies(u.isAlloc0(r), tb.Eq(tb.Select(final, r), tb.Select(exp, r))))
-		goal := tb.And(append([]*Term{main}, extra...)...)
-		u.oblige("frame", k, st, goal, token.NoPos, "locations outside `modifies` are unchanged ("+k+")")
 	}
 }
 
